@@ -18,14 +18,20 @@ import (
 // performs: a direct x.Subtract(y), or a one-level wrapper whose body applies
 // Subtract of a parameter to other parameters (including a range over a
 // variadic parameter).
-func subtractPairs(p *core.Program, info *types.Info, call *ast.CallExpr) [][2]string {
+func subtractPairs(p *core.Program, info *types.Info, call *ast.CallExpr, scope ast.Node) [][2]string {
+	str := func(e ast.Expr) string {
+		if scope != nil {
+			return Unfold(info, scope, e)
+		}
+		return core.ExprStr(e)
+	}
 	fn := core.Callee(info, call)
 	if fn == nil {
 		return nil
 	}
 	if core.RefName(fn) == "Subtract" && core.RecvTypeName(fn.Type().(*types.Signature)) == "ConnectionSet" {
 		if se, ok := ast.Unparen(call.Fun).(*ast.SelectorExpr); ok && len(call.Args) == 1 {
-			return [][2]string{{core.ExprStr(se.X), core.ExprStr(call.Args[0])}}
+			return [][2]string{{str(se.X), str(call.Args[0])}}
 		}
 		return nil
 	}
@@ -45,12 +51,12 @@ func subtractPairs(p *core.Program, info *types.Info, call *ast.CallExpr) [][2]s
 		if sig.Variadic() && i == sig.Params().Len()-1 {
 			var s []string
 			for j := i; j < len(call.Args); j++ {
-				s = append(s, core.ExprStr(call.Args[j]))
+				s = append(s, str(call.Args[j]))
 			}
 			return s
 		}
 		if i < len(call.Args) {
-			return []string{core.ExprStr(call.Args[i])}
+			return []string{str(call.Args[i])}
 		}
 		return nil
 	}
@@ -167,9 +173,9 @@ func PartitionDiscipline(p *core.Program, r *core.Report) {
 		for _, u := range unions {
 			se := ast.Unparen(u.Fun).(*ast.SelectorExpr)
 			target := core.RefName(core.FieldOf(info, se.X))
-			incoming := core.ExprStr(u.Args[0])
-			// only merges of a set coming from outside (parameter-rooted) are precedence merges
-			if id := core.RootIdent(u.Args[0]); id == nil || !isParamOrRecv(m, info, id) || info.ObjectOf(id) == recv {
+			incoming := Unfold(info, m.Decl.Body, u.Args[0])
+			// only merges of a set coming from outside (parameter-rooted, possibly named by a local first) are precedence merges
+			if id := core.RootIdent(ResolveLocal(info, m.Decl.Body, u.Args[0])); id == nil || !isParamOrRecv(m, info, id) || info.ObjectOf(id) == recv {
 				continue
 			}
 			required := []string{}
@@ -196,7 +202,7 @@ func PartitionDiscipline(p *core.Program, r *core.Report) {
 					if !ok {
 						return false
 					}
-					for _, pr := range subtractPairs(p, info, c) {
+					for _, pr := range subtractPairs(p, info, c, m.Decl.Body) {
 						if pr[0] == incoming && pr[1] == wantSub {
 							return true
 						}
